@@ -230,7 +230,14 @@ func (c *Client) handlePacket(pktx pkts.Packet) error {
 
 	// Broker PUBLISH QoS 2 transaction.
 	case *pkts1.Pubrel:
-		transactionx, _ := c.transactions.Get(pkt.MessageID())
+		transactionx, hasTransaction := c.transactions.Get(pkt.MessageID())
+		if !hasTransaction {
+			// Resent PUBREL of an already finished transaction (our PUBCOMP
+			// was lost) - the gateway still waits for the PUBCOMP.
+			pubcomp := pkts1.NewPubcomp()
+			pubcomp.CopyMessageID(pkt)
+			return c.send(pubcomp)
+		}
 		transaction, ok := transactionx.(*brokerPublishQOS2Transaction)
 		if !ok {
 			c.log.Error("Unexpected transaction type %T for packet: %v", transactionx, pkt)
